@@ -22,6 +22,7 @@ import (
 //   - what it wrote is accepted by the same decoder and gives equal fields;
 //   - when the input is exactly one frame (fixed header + the remaining length
 //     it announces), the re-encoding is the input, byte for byte.
+//
 // Inputs come from the C04 generator (valid packets, structured mutants, random bytes).
 func checkAccepted(c DCase) (fail string, classes []string) {
 	m, err := message.Type(c.Decoder).New()
@@ -64,7 +65,46 @@ func checkAccepted(c DCase) (fail string, classes []string) {
 	if df := diff(fieldsOf(m2), fieldsOf(m)); df != "" {
 		return fmt.Sprintf("%s.Decode accepted a %d-byte input (%s); decoding its re-encoding gives other fields: %s", name, len(c.Input), c.Origin, df), classes
 	}
+	// A message object that has been used before (the library itself decodes a CONNECT
+	// into the session's existing object when a session is resumed): what Decode makes
+	// of the input does not depend on what the object held.
+	for pi, prev := range usedWith(c.Decoder) {
+		mu, _ := message.Type(c.Decoder).New()
+		if _, err := mu.Decode(exactCap(prev)); err != nil {
+			continue
+		}
+		if _, err := mu.Decode(exactCap(c.Input)); err != nil {
+			return fmt.Sprintf("%s.Decode accepts the %d-byte input %x (%s) into a fresh message, but rejects it when the message object was used for another %s packet before (#%d): %v", name, len(c.Input), clipb(c.Input), c.Origin, name, pi, err), classes
+		}
+		if df := diff(fieldsOf(mu), fieldsOf(m)); df != "" {
+			return fmt.Sprintf("%s.Decode of a %d-byte input (%s) into a message object that held another %s packet before (#%d, %x) gives other fields than into a fresh one: %s", name, len(c.Input), c.Origin, name, pi, clipb(prev), df), classes
+		}
+		ou := sentinel(L + 8)
+		ku, err := mu.Encode(ou)
+		if err != nil || mu.Len() != L || ku != k || !bytes.Equal(ou[:ku], out[:k]) {
+			return fmt.Sprintf("%s decoded from a %d-byte input (%s) into a message object that held another %s packet before (#%d): Len() = %d, Encode returned (%d, %v) %x; a fresh object gives %d bytes %x", name, len(c.Input), c.Origin, name, pi, mu.Len(), ku, err, clipb(ou[:max(ku, 0)]), k, clipb(out[:k])), classes
+		}
+	}
+	classes = append(classes, "also-decoded-into-used-objects")
 	return "", classes
+}
+
+var usedCache = map[byte][][]byte{}
+
+// usedWith returns encodings of the base packets of a type (what a message
+// object may have held before).
+func usedWith(typ byte) [][]byte {
+	if u, ok := usedCache[typ]; ok {
+		return u
+	}
+	var u [][]byte
+	for _, p := range basePackets() {
+		if p.Type == typ {
+			u = append(u, codec.Encode(p))
+		}
+	}
+	usedCache[typ] = u
+	return u
 }
 
 // frameLen is the length of the frame the fixed header announces (the remaining
